@@ -415,9 +415,48 @@ pub fn run(thorough: bool) -> Outcome {
         }
         r
     });
+    // the unified analyzer's own capture-file route: every trace of <= 3 packets over five kinds, written to a capture file
+    // (every third record declares an original length above its captured length), must give what the per-packet route gives
+    let mut rep = rep;
+    {
+        let set = [0usize, 1, 3, 4, 5];
+        let mut pt: Vec<Vec<usize>> = vec![];
+        for n in 1..=3usize {
+            for mut i in 0..set.len().pow(n as u32) {
+                let mut t = vec![];
+                for _ in 0..n {
+                    t.push(set[i % set.len()]);
+                    i /= set.len();
+                }
+                pt.push(t);
+            }
+        }
+        let d = crate::drv::db();
+        let empty = format!("{:?}", crate::drv::UniRes::default());
+        for t in &pt {
+            let frames: Vec<Vec<u8>> = t.iter().map(|&k| kinds[k].1.clone()).collect();
+            set_clock(T0);
+            rep.exec(2 * frames.len() as u64);
+            let per_packet = guarded(|| {
+                let mut a = huginn_net::HuginnNet::new(Some(d), 16, None).expect("analyzer");
+                frames.iter().map(|f| format!("{:?}", uni_res(&a.analyze_tcp(f)))).filter(|x| *x != empty).collect::<Vec<_>>()
+            });
+            let file = guarded(|| crate::drv::uni_pcap(&frames, None, 16).map(|v| v.iter().map(|x| format!("{x:?}")).filter(|x| *x != empty).collect::<Vec<_>>()));
+            let names: Vec<&str> = t.iter().map(|&k| kinds[k].0).collect();
+            match (per_packet, file) {
+                (Ok(a), Ok(Ok(b))) => {
+                    if a != b {
+                        rep.dev("C20/capture-file-route-differs-from-the-per-packet-route", "capture-file", || json!({"kind": "capture-file", "trace": names, "per_packet_results": a.len(), "capture_file_results": b.len(), "first_difference": a.iter().zip(b.iter()).position(|(x, y)| x != y)}));
+                    }
+                }
+                (Ok(_), Ok(Err(e))) => rep.dev("C20/capture-file-route-fails", "capture-file", || json!({"kind": "capture-file", "trace": names, "detail": e})),
+                (a, b) => rep.dev("C20/panic", "panic", || json!({"kind": "capture-file", "trace": names, "detail": format!("{:?} {:?}", a.err(), b.err())})),
+            }
+        }
+    }
     Outcome {
         report: rep,
-        rule: "every trace of <= 4 packets (5 thorough) over 22 packet kinds (SYN/SYN+ACK/ACK with timestamps, HTTP request with, without and with an empty / blank User-Agent, HTTP response, ClientHello whole and in two parts, FIN+RST, no flags, IPv4 fragment, UDP, truncated frame, Ethernet-framed IPv6 SYN), every trace of <= 3 packets within each of 11 framings (incl. Ethernet padded to 60 bytes with a captured frame check sequence), every trace of <= 4 timestamped segments of both directions (IPv4 and IPv6, TSvals whose uptime has different days / hours / minutes) ; every trace of <= 4 packets over the two halves of a request whose second segment is byte for byte a complete ClientHello followed by the blank line (both protocol analyzers report on it), the SYN and an ordinary request; x 16 switch combinations x with/without database, unified analyzer vs stand-alone TCP / HTTP / stateless TLS processors in lock step under the injected clock; distinct = distinct unified outcomes".into(),
+        rule: "every trace of <= 4 packets (5 thorough) over 22 packet kinds (SYN/SYN+ACK/ACK with timestamps, HTTP request with, without and with an empty / blank User-Agent, HTTP response, ClientHello whole and in two parts, FIN+RST, no flags, IPv4 fragment, UDP, truncated frame, Ethernet-framed IPv6 SYN), every trace of <= 3 packets within each of 11 framings (incl. Ethernet padded to 60 bytes with a captured frame check sequence), every trace of <= 4 timestamped segments of both directions (IPv4 and IPv6, TSvals whose uptime has different days / hours / minutes) ; every trace of <= 4 packets over the two halves of a request whose second segment is byte for byte a complete ClientHello followed by the blank line (both protocol analyzers report on it), the SYN and an ordinary request; x 16 switch combinations x with/without database, unified analyzer vs stand-alone TCP / HTTP / stateless TLS processors in lock step under the injected clock; capture-file route: every trace of <= 3 packets over five kinds through analyze_pcap (records whose declared original length exceeds the captured length included) equals the per-packet route; distinct = distinct unified outcomes".into(),
         exhaustive: true,
         bounds: json!({"traces": traces.len(), "configurations": cfgs.len(), "max_depth": depth}),
     }
